@@ -748,11 +748,17 @@ def _clause_key(clause, info):
     return clause
 
 
+_MEMO = {}
+
+
 def _fails(fmt, mesh, dialect, ckey):
+    """_run is deterministic for (format, mesh, dialect): sources are rebuilt on every call"""
     if not FORMATS[fmt]["valid"](mesh, dialect):
         return False
-    res = _run(fmt, mesh, dialect)
-    return any(v is not None and _clause_key(c, v) == ckey for c, v in res.items())
+    k = (fmt, mesh["name"], tuple(sorted((a, str(b)) for a, b in dialect.items())))
+    if k not in _MEMO:
+        _MEMO[k] = {_clause_key(c, v) for c, v in _run(fmt, mesh, dialect).items() if v is not None}
+    return ckey in _MEMO[k]
 
 
 def _reduce(fmt, mesh, dialect, ckey, probes):
@@ -797,6 +803,7 @@ def readers(tier, seed):
     probes = [("any mesh (uniform 2-quad patch suffices)", uniform_probe), ("triangle meshes (tri_fan4 suffices)", tri_probe),
               ("mixed-size meshes (mixed_quad_tri_isolated suffices)", mixed_probe), ("closed meshes (cube suffices)", cube_probe)]
     limit = {"quick": 14, "thorough": 150}[tier]
+    _MEMO.clear()
     failures, samples = [], []
     seen_keys = {}
     cases = 0
